@@ -346,3 +346,46 @@ Theorem C08_feerate_estimate_is_source :
     TxUtilGen.gen_estimate_feerate_per_kw prof fee w = Val (Onchain.estimate fee w).
 Proof. exact TxUtilGenProofs.gen_estimate_is_model. Qed.
 Print Assumptions C08_feerate_estimate_is_source.
+
+(** The numeric rules behind the non-beneficial-value bound are the ones in the source.
+    Gen/OnchainGen.v is the statement-by-statement translation (tools/gen_rustfn.py, regenerated on
+    every run) of SimpleValidator::validate_beneficial_value - the whole body: the checked
+    difference of inputs and beneficial outputs (policy-onchain-format-standard, unfiltered), the
+    feerate estimate of Gen/TxUtilGen.v, the maximum feerate, the developer flag through
+    `dev_flags.as_ref().unwrap_or(&DEFAULT_DEV_FLAGS)` (DEFAULT_DEV_FLAGS read from the file),
+    policy-onchain-fee-range through the filter - and of the fee tail of ::validate_onchain_tx: the
+    statements from `let mut sum_inputs: u64 = 0;` to the end of the function (the checked sum of the
+    input values, policy-onchain-fee-range unfiltered on overflow; the call of
+    validate_beneficial_value with its `?`; Ok(non_beneficial)), read as a function of the three
+    variables they use.  For every source-level policy, every filter and both build profiles the
+    generated functions answer what [validate_beneficial] and the last two steps of
+    [validate_onchain] answer - value, refusal tag or panic.  Side condition of the first theorem:
+    the input sum is a u64; the tail needs none (its sum is made by checked additions).
+    Not translated: the per-output loop of validate_onchain_tx (a local macro, locks on channel
+    slots, a match on their state, a growing vector of unknown indices) and Node::check_onchain_tx
+    (locks, iterator chains); they stay tied by the correspondence check. *)
+From VLS Require Gen.CommitmentPolicyGen Gen.OnchainGen Proofs.OnchainGenProofs.
+Theorem C08_beneficial_value_rule_is_source :
+  forall (prof : profile) (swarn : string -> bool) (gp : CommitmentPolicyGen.SimplePolicy)
+         (sum_inputs sum_beneficial weight : N),
+    (sum_inputs <=? U64MAX) = true ->
+    OnchainGen.gen_validate_beneficial_value prof swarn gp sum_inputs sum_beneficial weight =
+    OnchainGenProofs.of_vres
+      (validate_beneficial (OnchainGenProofs.otag_filter swarn) (OnchainGenProofs.abs_opolicy gp)
+         sum_inputs sum_beneficial weight).
+Proof. exact OnchainGenProofs.gen_beneficial_is_model. Qed.
+Print Assumptions C08_beneficial_value_rule_is_source.
+
+Theorem C08_onchain_rules_are_source :
+  forall (prof : profile) (swarn : string -> bool) (gp : CommitmentPolicyGen.SimplePolicy)
+         (beneficial_sum : N) (values_sat : list N) (weight_lower_bound : N),
+    OnchainGen.gen_validate_onchain_tx_fee_tail prof swarn gp beneficial_sum values_sat weight_lower_bound =
+    OnchainGenProofs.of_vres
+      (match sum_checked values_sat 0 with
+       | None => VErr T_fee_range
+       | Some sum_inputs =>
+           validate_beneficial (OnchainGenProofs.otag_filter swarn) (OnchainGenProofs.abs_opolicy gp)
+             sum_inputs beneficial_sum weight_lower_bound
+       end).
+Proof. exact OnchainGenProofs.gen_fee_tail_is_model. Qed.
+Print Assumptions C08_onchain_rules_are_source.
